@@ -66,7 +66,7 @@ CHECKS = {
    technique="deterministic simulation at spec-step granularity: seeded label interleavings and message choices over the real generated archetypes; invariant oracles after every step; shrunk replay files",
    ref="6 (C15)"),
  "C02": dict(
-   text="For each wired spec/Go pair (see DESIGN.md for the list actually wired; currently locksvc and raftkvs) the real generated archetypes run in the level-A spec world under seeded schedules and choices; after every committed step the full spec state under the PlusCal translation's variable names (pc, every archetype local, every global) is recorded, and TLC evaluates the specification's own Init on the first state and Next (or stuttering) on every consecutive pair, reading the .tla from /repo at check time. A committed Go step that is not a step of the spec, or an initial state that is not Init, is a violation; Go assertion failures and panics are violations too.",
+   text="For each wired spec/Go pair (see DESIGN.md for the list actually wired; currently locksvc, raftkvs and pbkvs) the real generated archetypes run in the level-A spec world under seeded schedules and choices; after every committed step the full spec state under the PlusCal translation's variable names (pc, every archetype local, every global) is recorded, and TLC evaluates the specification's own Init on the first state and Next (or stuttering) on every consecutive pair, reading the .tla from /repo at check time. A committed Go step that is not a step of the spec, or an initial state that is not Init, is a violation; Go assertion failures and panics are violations too.",
    note="Trusted: TLC as evaluator of the spec's Next; the independent TLA+ value printer; hand-written binding tables from spec variables to Go state (a missing binding stops the check with exit 2). Only wired pairs are claimed; steps the spec enables but Go refuses are not detected by this oracle.",
    technique="deterministic simulation + refinement check of the recorded history: seeded spec-level schedules over the real generated code, TLC evaluating the spec's next-state relation on every recorded state pair",
    ref="6 (C02)"),
@@ -80,6 +80,16 @@ CHECKS = {
    note="Trusted: porcupine; history stamps taken at the commit of the client's clientLoop/rcvResp labels; level B not included yet.",
    technique="deterministic simulation + linearizability check (porcupine) of the recorded client history",
    ref="6 (C09)"),
+ "C14": dict(
+   text="The real generated AReplica/AClient archetypes of systems/pbkvs run in the level-A spec world (ReliableFIFOLink per <<id, typ>>, NetworkToggle, PerfectFD, LeaderElection on the alive set, NetworkBufferLength, FileSystem, request Channel) for 1-4 replicas and 1-3 clients with EXPLORE_FAIL: every mayFail branch is a stream decision (bounded so that one replica survives), so replicas crash at every label boundary the spec allows, including mid-replication. After every committed step ConsistencyOK as written in the spec (primary about to answer => every live replica holds the primary's store) and no failed assertion; the clients' history is checked for linearizability against a register with porcupine.",
+   note="Trusted: level-A environment stubs (macros to the letter, cross-checked by C02 against TLC); perfect failure detector as the property states; KEY_SET = {KEY1} as in the spec.",
+   technique="deterministic simulation at spec-step granularity: seeded interleavings and crash points over the real generated primary-backup archetypes; invariant oracle after every step + porcupine linearizability of the recorded history",
+   ref="6 (C14)"),
+ "C16": dict(
+   text="One run = one drawn system with drawn sizes. Level A (real generated archetypes in the spec world): dqueue (exactly-once, in-order hand-over to the requester, buffer bounds, no deadlock), loadbalancer (BuffersOk, each request forwarded once and answered by exactly one server with the right page), proxy with a perfect failure detector and any sequence of backend crashes (ProxyOK after every step; a client is told FAIL only when every backend has failed), nestedcrdtimpl (generated ACRDTResource driven by the spec's Node processes: MonotonicState, no lost or phantom increment, reads never go below the section's starting count, convergence at quiescence). Level U (real generated archetypes with the real 2PC / CRDT resources over net/rpc on the simulated network under the simulator's scheduler and clock): shcounter (every replica ends at NUM_NODES, within a bound), gcounter (reads never decrease or exceed the increments written, final read NUM_NODES), shopcart with the LWWSet the shipped bootstrap uses (no phantom element, equal knowledge => equal carts, last writer decides). No assertion of any spec fails.",
+   note="Trusted: level-A stubs; unique items/paths so that deliveries are attributable; proxy run with PerfectFD (the property's hypothesis) rather than the PracticalFD the shipped spec instantiates; the spec's StateSanity is not used as written (it sums a set of views and is falsified by the spec's own behaviours): per-key parity is checked instead; gcounter termination is not demanded (a finished node closes its CRDT resource). replicatedkv has neither spec nor test in the tree and is not exercised.",
+   technique="deterministic simulation: seeded spec-step interleavings and crash points (level A) and seeded goroutine schedules over real 2PC/CRDT resources on a simulated network (level U); invariant and history oracles; shrunk replay files",
+   ref="6 (C16)"),
 }
 PENDING = "check not built yet in this session (planned, see DESIGN.md section 6); not claimed until its harness passes the determinism self-test"
 
